@@ -158,6 +158,8 @@ class DramRef:
         self.open = [[None] * self.nbanks for _ in range(self.nranks)]
         self.wq = []                # (due_cycle, key)
         self.rq = []                # (due_cycle, word)
+        self.read_xor = None        # optional list of XOR masks, one per returned read burst
+        self.nreturned = 0
         self.rv = 0
         self.reqq = {}              # (rank, bank) -> list of accepted requests (we, row, col, tag)
         # timing state (DRAM clock timestamps)
@@ -303,6 +305,11 @@ class DramRef:
             if self.rq and self.rq[0][0] <= c:
                 _, key, snap, _e = self.rq.pop(0)
                 word = self.read_key(key) if snap is None else snap
+                if self.read_xor is not None:
+                    # fault injection: stored bits seen flipped by the n-th read burst (C15 on the core)
+                    if self.nreturned < len(self.read_xor):
+                        word ^= self.read_xor[self.nreturned]
+                    self.nreturned += 1
                 sim.ev("dram", "rdata", key, word)
                 m = (1 << self.dbits) - 1
                 for p, ph in enumerate(self.ph):
